@@ -504,7 +504,7 @@ def build_derived_operation(ctx, op, prm=None):
                     audit("extracted", i)
                 return {kk: to_py(v) for kk, v in ex["d"]}
             if ex["kind"] == "dict":
-                return {kk: to_py(v) for kk, v in ex["d"]}
+                return shaped(ex, {kk: to_py(v) for kk, v in ex["d"]})
             if ex["kind"] == "raises":
                 raise pv.HandlerError("extractor")
             return 7 if ex.get("junk") == "int" else [('k', 1), 7]
@@ -559,7 +559,7 @@ def build_operation(ctx, op, prm=None):
                     audit("extracted", i)
                 return {kk: to_py(v) for kk, v in ex["d"]}
             if ex["kind"] == "dict":
-                return {kk: to_py(v) for kk, v in ex["d"]}
+                return shaped(ex, {kk: to_py(v) for kk, v in ex["d"]})
             if ex["kind"] == "raises":
                 raise pv.HandlerError("extractor")
             return 7 if ex.get("junk") == "int" else [('k', 1), 7]
@@ -579,11 +579,66 @@ def build_operation(ctx, op, prm=None):
         if prm is not None:
             # declared once, when the class is defined (as the @recording_params class decorator does)
             rec.recording_params(RecordingParameters(
-                sampling_rate=float(Fraction(*prm["rate"])), ignore_enforced_sampling=prm["ignore"],
+                sampling_rate=rate_of(prm), ignore_enforced_sampling=prm["ignore"],
                 skipped=prm["skipped"], copy_data_on_intercepion=prm["copy"]))(cls)
     holder, cls, call = cache[key]
     holder.ctx, holder.op = ctx, op
     return call
+
+
+def rate_of(prm):
+    """the sampling_rate a class is registered with: the number prm["rate"] stands for, or - optional prm["rate_raw"] - a value
+    as it arrives from a configuration source that was never converted: None (missing key) / a text / a list"""
+    raw = prm.get("rate_raw")
+    if raw is None:
+        return float(Fraction(*prm["rate"]))
+    return {"none": None, "str": "0.5", "str-word": "high", "list": [1]}[raw]
+
+
+class _KeysGetitem(object):
+    """a mapping in the sense of dict(): keys() and __getitem__, nothing else"""
+    def __init__(self, d):
+        self._d = d
+
+    def keys(self):
+        return list(self._d)
+
+    def __getitem__(self, k):
+        return self._d[k]
+
+
+def shaped(ex, d):
+    """What a metadata extractor hands back: the dict d itself, or - optional ex["shape"] - the same key/value pairs in another
+    of the forms dict() accepts (the recorder does metadata.update(dict(extractor())))."""
+    shape = ex.get("shape", "dict")
+    if shape == "dict":
+        return d
+    import collections
+    import types
+    if shape == "ordereddict":
+        return collections.OrderedDict(d)
+    if shape == "defaultdict":
+        return collections.defaultdict(list, d)
+    if shape == "mappingproxy":
+        return types.MappingProxyType(d)
+    if shape == "chainmap":
+        items = list(d.items())
+        return collections.ChainMap(dict(items[:1]), dict(items))       # per-run values over defaults
+    if shape == "userdict":
+        return collections.UserDict(d)
+    if shape == "keys-getitem":
+        return _KeysGetitem(d)
+    if shape == "pairs-list":
+        return list(d.items())
+    if shape == "pairs-tuple":
+        return tuple((k, v) for k, v in d.items())
+    if shape == "pairs-lists":
+        return [[k, v] for k, v in d.items()]
+    if shape == "items-view":
+        return d.items()
+    if shape == "pairs-generator":
+        return ((k, v) for k, v in d.items())
+    raise ValueError(shape)
 
 
 def force_flag_of(rec):
@@ -712,6 +767,8 @@ def do_one_run(rec, spy, rng, run):
         except BaseException as ex:
             ob = {"outcome": outcome_of_exc(ex), "pbouts": [], "recouts": []}
         ob["store_changed"] = before != repr(sorted(getattr(spy.inner, "_recordings", {}).items()))
+        if run.get("fresh_process"):
+            ob["fresh"] = fresh_process_replay(spy, rid, run)
     ob["trace"] = ctx.trace
     ob["cass"] = spy.log
     ob["state"] = state_of(rec)
@@ -720,6 +777,53 @@ def do_one_run(rec, spy, rng, run):
     ob["draws_used"] = rng.pos - draws_before
     strip(run)
     return ob
+
+
+def fresh_process_replay(spy, rid, run):
+    """The same replay again in ANOTHER interpreter (a new process that imports playback afresh and opens the same file
+    cassette directory), as the studio replays what a service recorded: whatever the recording process keeps in memory does
+    not exist there.  Watchdog: the child is killed after 120 s."""
+    import subprocess
+    import sys
+    d = getattr(spy.inner, "directory", None)
+    if d is None:
+        return {"skipped": "cassette is not file based"}
+    work = tempfile.mkdtemp(prefix="verif_xplay_")
+    try:
+        cin, cout = os.path.join(work, "in.json"), os.path.join(work, "out.json")
+        json.dump([{"dir": d, "rid": rid, "run": _plain(run), "interrupt_kind": INTERRUPT_KIND[0], "unshare": UNSHARE[0]}],
+                  open(cin, "w"))
+        try:
+            p = subprocess.run([sys.executable, os.path.abspath(__file__), "XPLAY", cin, cout], cwd="/", timeout=120,
+                               stdout=subprocess.PIPE, stderr=subprocess.PIPE)
+        except subprocess.TimeoutExpired:
+            return {"error": "the replaying interpreter did not finish within 120 s"}
+        if p.returncode != 0 or not os.path.exists(cout):
+            return {"error": "the replaying interpreter ended with rc=%s: %s" % (p.returncode, p.stderr.decode("utf-8", "replace")[-400:])}
+        res = json.load(open(cout))[0]
+        if "driver_exception" in res:
+            return {"error": res["driver_exception"]}
+        return res
+    finally:
+        shutil.rmtree(work, ignore_errors=True)
+
+
+def run_xplay(case):
+    """(child side of fresh_process_replay)"""
+    UNSHARE[0] = bool(case.get("unshare"))
+    INTERRUPT_KIND[0] = case.get("interrupt_kind", "custom")
+    rec = TapeRecorder(FileBasedTapeCassette(case["dir"]))
+    run = case["run"]
+    (rec.enable_recording if run.get("enabled") else rec.disable_recording)()
+    ctx = Ctx(rec)
+    call = build_operation(ctx, run["pf"]["op"], None)
+    try:
+        pb = rec.play(case["rid"], lambda recording: call())
+        return {"outcome": {"o": "val", "v": {"t": "none"}},
+                "pbouts": datum_list((x.key, x.value) for x in pb.playback_outputs),
+                "recouts": datum_list((x.key, x.value) for x in pb.recorded_outputs)}
+    except BaseException as ex:
+        return {"outcome": outcome_of_exc(ex), "pbouts": [], "recouts": []}
 
 
 def run_history(case):
@@ -1059,4 +1163,5 @@ if __name__ == '__main__':
     hs["C05"] = run_c04
     hs["C09"] = run_c04
     hs["C17"] = run_c17
+    hs["XPLAY"] = run_xplay
     main(hs)
